@@ -230,8 +230,19 @@ def _work(chunk):
         # print again after an edit: the sheet is the one of the edited tasks (widths, indentation, cells)
         if ext_link is None and vals[0] is None:
             first = repr(w)
+            # list and task objects obtained and shown BEFORE the edit, shown again after it
+            held_roots, held_kids, held_query = w.roots, objs[0].children, w.tasks(id=objs[0].id)
+            for h in (held_roots, held_kids, held_query, objs[0]):
+                repr(h)
             objs[-1].name = 'a much longer name than before'
             objs[0].tag = 'new'
+            case_h = {'parents': list(par), 'names': names, 'edit': 'rename the last task; lists / task shown before the edit are shown again'}
+            for hname, h, start in (('roots', held_roots, roots), ('children', held_kids, [j for j in range(len(par)) if par[j] == 0]),
+                                    ('query', held_query, [0]), ('task', objs[0], [0])):
+                acc.count('evaluations')
+                acc.count('reprint_after_edit')
+                check_sheet(repr(h), dfs(par, start, True), objs, None,
+                            lambda c_, m_, hname=hname: acc.violation('C20', f'sheet/{c_}/held-{hname}-after-edit', m_, case_h), lambda n_: None)
             if len(par) >= 2 and par[-1] is not None:
                 try:
                     objs[-1].parent = None
